@@ -59,6 +59,7 @@ type link struct {
 	peerClosed bool // the peer ended the connection (close / reset)
 	peerReset  bool
 	ordinal  int // k-th link of its endpoint
+	onData   func()
 }
 
 func (e *env) newLink(ep *epCfg, name string) *link {
@@ -199,6 +200,9 @@ func (l *link) rxLoop() {
 		default:
 			return // packet sockets are demultiplexed by pktLoop
 		}
+		// a task woken inside a blocking call is not the released one: shared harness state is
+		// only touched after becoming it again
+		dsim.EnsureReleased("peer-rx")
 		if n > 0 {
 			l.gotData(buf[:n])
 		}
@@ -213,12 +217,20 @@ func (l *link) rxLoop() {
 
 func (l *link) gotData(b []byte) {
 	c := rxChunk{t: l.e.now(), step: dsim.Step(), data: append([]byte(nil), b...)}
+	l.e.mu.Lock()
 	l.rx = append(l.rx, c)
+	cb := l.onData
+	l.e.mu.Unlock()
+	if cb != nil {
+		cb()
+	}
 	dsim.Record("peer-rx", fmt.Sprintf("%s %x", l.name, b), nil, int64(l.id), int64(len(b)))
 }
 
 // wire returns everything received so far.
 func (l *link) wire() []byte {
+	l.e.mu.Lock()
+	defer l.e.mu.Unlock()
 	var out []byte
 	for _, c := range l.rx {
 		out = append(out, c.data...)
@@ -342,6 +354,7 @@ func (e *env) packetPeer(ep *epCfg, onLink func(*link)) (*world.PacketConn, erro
 			if err != nil {
 				return
 			}
+			dsim.EnsureReleased("peer-pkt")
 			port := from.(*net.UDPAddr).Port
 			l := byPort[port]
 			if l == nil {
